@@ -1,6 +1,8 @@
 # coding = utf-8
 """see documentation @ ../../docs/reader.md"""
 
+import csv
+
 import numpy as np
 import pandas as pd
 
@@ -41,7 +43,14 @@ def read_lammpslog(filename) -> [pd.DataFrame]:
 
     final = []
     for i in range(linenum.shape[0]):
-        data = pd.read_csv(filename, sep=r"\s+", skiprows=start[i], nrows=linenum[i])
+        # quote characters in echoed input lines must not merge (skipped) lines
+        data = pd.read_csv(
+            filename,
+            sep=r"\s+",
+            skiprows=start[i],
+            nrows=linenum[i],
+            quoting=csv.QUOTE_NONE,
+        )
         final.append(data)
         del data
     return final
